@@ -1,5 +1,6 @@
 import Hcl.Proofs.EvalCorrect
 import Hcl.Proofs.CheckSpec
+import Hcl.Proofs.FlagRun
 
 /-!
 # C17 — each strictness option changes exactly the check it names, nothing else
@@ -31,3 +32,24 @@ def allOn : Flags := ⟨true, true, true, true, true⟩
 theorem C17_accept (fl : Flags) (Γ : Ctx) (κ : Env) (e : Ex) (w : Width) :
     check fl Γ κ e = .ok w ↔ Spec.typeOf fl Γ (alwaysTrue fl κ) e = some w :=
   C08_expr fl Γ κ e w
+
+/-! ### whole programs -/
+
+/-- **C17, programs**: a statement list accepted under two combinations of the strictness options is built into the
+    same program under both: the same constants, the same actions (the width fix-up of case expressions included), the
+    same register banks and tables -/
+theorem C17_accepted_same_program (fl₁ fl₂ : Flags) (cls : CharClass) (o : Orders) (stmts : List Stmt) (p₁ p₂ : Program)
+    (hwf : StmtsWF stmts)
+    (h₁ : Program.new fl₁ cls o y86FixedFunctions stmts = .ok p₁)
+    (h₂ : Program.new fl₂ cls o y86FixedFunctions stmts = .ok p₂) : p₁ = p₂ :=
+  Program_new_flag fl₁ fl₂ cls o stmts p₁ p₂ hwf h₁ h₂
+
+/-- **C17, "a program accepted under two combinations simulates identically under both"**: from the initial state on any
+    memory image, with any timeout, the run loop gives the same answer under both option sets -- the same final state
+    (every wire, register, memory byte, the status and the cycle count) or the same division-by-zero report -/
+theorem C17_accepted_same_run (fl₁ fl₂ : Flags) (cls : CharClass) (o : Orders) (stmts : List Stmt) (p₁ p₂ : Program)
+    (ho : OrdersOK o) (hwf : StmtsWF stmts)
+    (h₁ : Program.new fl₁ cls o y86FixedFunctions stmts = .ok p₁)
+    (h₂ : Program.new fl₂ cls o y86FixedFunctions stmts = .ok p₂) (mem : Mem) (hmem : mem.BytesOK) (timeout fuel : Nat) :
+    p₁ = p₂ ∧ ∃ s0, State.init p₁ mem = .ok s0 ∧ runLoop fl₁ p₁ timeout fuel s0 = runLoop fl₂ p₂ timeout fuel s0 :=
+  Program_new_flag_run fl₁ fl₂ cls o stmts p₁ p₂ ho hwf h₁ h₂ mem hmem timeout fuel
